@@ -11,6 +11,12 @@ def judge(c, r):
         return None
     if r.get("hang") or r.get("crash"):
         return "hang/crash %s" % r
+    if c.get("insub"):
+        want = "panic" in c["outcome"]
+        if bool(r.get("subpanic")) != want:
+            return "declared inside a sub command's initialiser, then the application's help requested: Run %s (%s), specification says %s" % (
+                "panicked" if r.get("subpanic") else "returned", r.get("submsg"), "a declaration must panic" if want else "every declaration is accepted")
+        return None
     for k, (want, got) in enumerate(zip(c["outcome"], r["panics"])):
         if want == "either":
             continue
@@ -61,17 +67,20 @@ def run(tier, wd):
         if 2 <= len(c["decls"]) <= 3:
             for k in range(len(c["decls"]) - 1):
                 rcases.append(dict(c, runafter=k))
-    cases = cases + vcases + rcases
+    # ... and with the declarations made inside the initialiser of a sub command, which the application's help request runs
+    scases = [dict(c, insub=True) for c in cases if len(c["decls"]) <= 3 and "either" not in c["outcome"]]
+    cases = cases + vcases + rcases + scases
+    rep.cov["sequences_inside_a_sub_command"] = len(scases)
     rep.cov["sequences_with_a_run_in_between"] = len(rcases)
     rep.cov["sequences_with_a_version_declaration"] = len(vcases)
-    results = core.run_harness(binpath, "decl", [dict(concrete(c), **{k: c[k] for k in ("version", "runafter") if k in c}) for c in cases], wd)
+    results = core.run_harness(binpath, "decl", [dict(concrete(c), **{k: c[k] for k in ("version", "runafter", "insub") if k in c}) for c in cases], wd)
     rnd = random.Random(core.seed())
     nontriv = 0
     for c, r in zip(cases, results):
         rep.cov["evaluations"] += 1
         why = judge(c, r)
         if why:
-            rep.violation("%s %s%s: %s" % (c["kind"], c["decls"], (" (declaration %d through Version)" % c["version"] if "version" in c else "") + (" (help request after declaration %d)" % c["runafter"] if "runafter" in c else ""), why), {"engine": "decl", "case": c})
+            rep.violation("%s %s%s: %s" % (c["kind"], c["decls"], (" (declaration %d through Version)" % c["version"] if "version" in c else "") + (" (help request after declaration %d)" % c["runafter"] if "runafter" in c else "") + (" (inside a sub command)" if c.get("insub") else ""), why), {"engine": "decl", "case": c})
         if "panic" in c["outcome"]:
             nontriv += 1
         if len(rep.cov["samples"]) < 5 and len(c["decls"]) == 3 and "panic" in c["outcome"] and "ok" in c["outcome"][1:] and rnd.random() < 0.01:
@@ -93,7 +102,7 @@ def replay(path, wd):
         c = json.load(f)["replay"]["case"]
     binpath = core.build_harness()
     decls = [n.replace("~", "\u0142") for n in c["decls"]] if c["kind"] == "args" else c["decls"]
-    r = core.run_harness(binpath, "decl", [dict({"kind": c["kind"], "decls": decls}, **{k: c[k] for k in ("version", "runafter") if k in c})], wd, shards=1)[0]
+    r = core.run_harness(binpath, "decl", [dict({"kind": c["kind"], "decls": decls}, **{k: c[k] for k in ("version", "runafter", "insub") if k in c})], wd, shards=1)[0]
     why = judge(c, r)
     print("replay: %s %s -> %s ; %s" % (c["kind"], c["decls"], json.dumps(r), why or "agrees with the specification"))
     return 1 if why else 0
